@@ -1,4 +1,99 @@
 import RP.Driver.Common
--- line-protocol driver for property C13 (stub)
-def handle (_line : String) : String := "unimplemented"
+import RP.Model.Kmeans
+/-! line-protocol driver for C13 (the distances are the real `f32` values, as bit patterns)
+
+```
+nbr <K> <bits>^K                                   → <index> ~d | panic
+next <k> <K> <N> (<H point> <bits>^K)^N            → ok <k> (<mass> <n> (<code> <count>)*)^k | panic
+lookup <street> <K> <N> (<bits>^K)^N               → ok <code>^N | panic
+metric <street> <K> <bits>^(K·K)                   → <n> (<key> ~v)*
+H = <n> <mass> (<code> <count>)*
+``` -/
+open RP.Driver RP.Transport RP.Kmeans
+
+abbrev F := Float32
+
+def nat? (s : String) : Option Nat := s.toNat?
+def f32ofBits? (s : String) : Option F := (s.toNat?).bind fun n => if n < 2 ^ 32 then some (Float32.ofBits n.toUInt32) else none
+def nan : F := Float32.ofBits 0x7fc00000
+
+def takeF : Nat → List String → List F → Option (List F × List String)
+  | 0, ts, acc => some (acc.reverse, ts)
+  | k + 1, t :: ts, acc => do takeF k ts ((← f32ofBits? t) :: acc)
+  | _, _, _ => none
+
+def parseHist : List String → Option (Hist × List String)
+  | n :: mass :: rest => do
+    let n ← nat? n
+    let mass ← nat? mass
+    let rec go : Nat → List String → List (Nat × Nat) → Option (List (Nat × Nat) × List String)
+      | 0, ts, acc => some (acc.reverse, ts)
+      | k + 1, a :: c :: ts, acc => do go k ts (((← nat? a), (← nat? c)) :: acc)
+      | _, _, _ => none
+    let (cs, rest') ← go n rest []
+    some (⟨mass, cs⟩, rest')
+  | _ => none
+
+def parsePoints (kc : Nat) (withHist : Bool) : Nat → List String → List (Hist × List F) → Option (List (Hist × List F) × List String)
+  | 0, ts, acc => some (acc.reverse, ts)
+  | n + 1, ts, acc => do
+    let (h, ts1) ← if withHist then parseHist ts else some (Hist.empty, ts)
+    let (row, ts2) ← takeF kc ts1 []
+    parsePoints kc withHist n ts2 ((h, row) :: acc)
+
+/-- distance of a point (carrying its real distance row) to the `j`-th centroid -/
+def rowDist (p : Hist × List F) (j : Nat) : F := p.2.getD j nan
+
+def cmpF : F → F → Option Ordering := Arith.cmp
+
+def showHist (h : Hist) : String :=
+  s!" {h.mass} {h.n}" ++ String.join (h.counts.map fun e => s!" {e.1} {e.2}")
+
+def handle (line : String) : String :=
+  match words line with
+  | "nbr" :: k :: rest =>
+    match nat? k with
+    | some k =>
+      match takeF k rest [] with
+      | some (ds, []) =>
+        match neighborhood cmpF rowDist (List.range k) (Hist.empty, ds) with
+        | some (i, d) => s!"{i} {fmt32 d}"
+        | none => "panic"
+      | _ => "bad-op"
+    | none => "bad-op"
+  | "next" :: k :: kc :: n :: rest =>
+    match nat? k, nat? kc, nat? n with
+    | some k, some kc, some n =>
+      match parsePoints kc true n rest [] with
+      | some (pts, []) =>
+        match next k cmpF rowDist Prod.fst pts (List.range kc) with
+        | some cs => s!"ok {cs.length}" ++ String.join (cs.map showHist)
+        | none => "panic"
+      | _ => "bad-op"
+    | _, _, _ => "bad-op"
+  | "lookup" :: s :: kc :: n :: rest =>
+    match nat? s, nat? kc, nat? n with
+    | some s, some kc, some n =>
+      if s ≥ 4 then "bad-op" else
+      match parsePoints kc false n rest [] with
+      | some (pts, []) =>
+        match lookup s cmpF rowDist pts (List.range kc) (List.range n) with
+        | some l => "ok" ++ String.join (l.map fun e => s!" {e.2}")
+        | none => "panic"
+      | _ => "bad-op"
+    | _, _, _ => "bad-op"
+  | "metric" :: s :: k :: rest =>
+    match nat? s, nat? k with
+    | some s, some k =>
+      if s ≥ 4 then "bad-op" else
+      match takeF (k * k) rest [] with
+      | some (ds, []) =>
+        let tbl := ds.toArray
+        let emd : Nat → Nat → F := fun i j => tbl.getD (i * k + j) nan
+        let m : Metric F := metric s emd (List.range k)
+        s!"{m.entries.length}" ++ String.join (m.entries.map fun e => s!" {e.1} {fmt32 e.2}")
+      | _ => "bad-op"
+    | _, _ => "bad-op"
+  | _ => "bad-op"
+
 def main : IO Unit := RP.Driver.run handle
